@@ -38,6 +38,8 @@ def pool():
         datetime.datetime(2020, 1, 1, tzinfo=TZ.utc), datetime.datetime(2019, 12, 31, 19, 0, tzinfo=TZ(datetime.timedelta(hours=-5))),
         datetime.datetime(2020, 6, 1, 12, tzinfo=TZ.utc), datetime.datetime(2020, 6, 1, 12), datetime.date(2020, 6, 1), datetime.date(1970, 1, 1),
         datetime.datetime(1999, 12, 31, 23, 59, 59, 999000), datetime.date(2000, 1, 1),
+        # closer than a millisecond (host datetimes carry microseconds): still three different, ordered values
+        datetime.datetime(2020, 1, 1, 0, 0, 0, 400), datetime.datetime(2020, 1, 1, 0, 0, 0, 800), datetime.datetime(2020, 1, 1, 0, 0, 0, 1200),
     ] + DST_POOL + [
         [], [None], [0], [1], [1.0], [1, 2], [1, 2.0], [2], [1, [2]], [1, [2, 3]], [[1]], [[]], ['a'], ['a', 1], [True], [None, None], [[1, 2], 3],
         {}, {'a': 1}, {'a': 1.0}, {'a': 2}, {'b': 1}, {'a': 1, 'b': 2}, {'b': 2, 'a': 1}, {'a': None}, {'a': [1]}, {'a': {'b': 1}}, {'a': {'b': 1.0}}, {'': 0}, {'a': True}, {'a': False}, {'a': 0}, {'a': [True]}, {'a': {'b': True}}, {'a': {'b': 0}}, {'a': 1, 'b': True}, {'a': '1'}, {'b': 1, 'a': 2}, {'b': 2, 'a': 1}, {'b': 0, 'a': 3}, {'c': 1, 'b': 5, 'a': 0}, {'c': 2, 'b': 0, 'a': 0}, {'z': [1], 'y': [2]}, {'z': [2], 'y': [1]},
@@ -222,6 +224,7 @@ function run(xs, a, b):
     objectSet(res, 'sorted', arraySort(arrayCopy(xs)))
     objectSet(res, 'min', mathMin(arrayGet(xs, 0), arrayGet(xs, 1), arrayGet(xs, 2), a))
     objectSet(res, 'max', mathMax(arrayGet(xs, 0), arrayGet(xs, 1), arrayGet(xs, 2), a))
+    objectSet(res, 'min1', arrayNew(mathMin(a), mathMax(a), mathMin(xs), mathMax(xs)))
     objectSet(res, 'ix', arrayIndexOf(xs, a))
     objectSet(res, 'lix', arrayLastIndexOf(xs, a))
     return res
@@ -266,6 +269,10 @@ return run(xs, a, b)
             acc.violation('min-not-least', f'min{cand!r} = {res["min"]!r}', case)
         if not any(res['max'] is x or refval.veq(res['max'], x) for x in cand) or any(rcmp(res['max'], x) < 0 for x in cand):
             acc.violation('max-not-greatest', f'max{cand!r} = {res["max"]!r}', case)
+        # one argument: it is its own least and greatest value, whatever its type (an array is ONE value)
+        m1 = res['min1']
+        if not (m1[0] is a or refval.veq(m1[0], a)) or not (m1[1] is a or refval.veq(m1[1], a)) or not refval.veq(m1[2], xs) or not refval.veq(m1[3], xs):
+            acc.violation('min-max-of-one-argument', f'mathMin/mathMax({a!r}) = {m1[:2]!r}; mathMin/mathMax({xs!r:.200}) = {m1[2:]!r:.300}', case)
         fi = next((k for k, x in enumerate(xs) if rcmp(x, a) == 0), -1)
         li = next((k for k in range(len(xs) - 1, -1, -1) if rcmp(xs[k], a) == 0), -1)
         if callable(a):
